@@ -1422,4 +1422,57 @@ theorem C01.exprs_error (f : Nat) (e : Node) (rest : List Node) (acc : List Obj)
 
 example : outcome (evalI 4 (.arr [.int 1, .int 2])) {} = .ok (.array [.int 1, .int 2]) := rfl
 
+/-! ## 7b. the counting loop with a loop variable -/
+
+/-- the counting loop WITH a loop variable (`for i = n {body}`): with iterations left, the variable is set to
+the iteration number in the current frame (here: an ordinary name whose store goes to the current frame, see
+`C01.createOrSet_binds`), the body runs in that state — where the variable reads `i` — and, when it ran to an
+ordinary value `r`, the loop goes on from `i + 1` in the state the body left -/
+theorem C01.forInteger_named_unroll (k : Nat) (body : Node) (i endV : Int) (name : String) (last : Obj) (st : St)
+    (fr : Frame) (h : i < endV) (hname : name ≠ "") (ha : C01.Assignable st name fr)
+    (hcase : (lookupStore fr.store name = none ∧ fr.outer = none)
+      ∨ (∃ r, lookupStore fr.store name = some r ∧ ∀ re rn, r ≠ .ref re rn)) :
+    ∃ s1, C01.Binds s1 name (.int (Int64.ofInt i))
+      ∧ ∀ r, outcome (evalI k body) s1 = .ok r → r.stops = false →
+          SameRun (evalForInteger (k + 1) body i endV name last) st (evalForInteger k body (i + 1) endV name r)
+            (stateAfter (evalI k body) s1) := by
+  obtain ⟨s1, hrun, hb⟩ := C01.createOrSet_binds st name (.int (Int64.ofInt i)) false fr ha
+    (fun _ _ h => by cases h) (Or.inr hcase)
+  refine ⟨s1, hb, fun r hr hstop => ?_⟩
+  have h1 : ¬ (endV - i < 0) := by omega
+  have h2 : ¬ (i ≥ endV) := by omega
+  have h3 : (name != "") = true := by simpa using hname
+  rw [evalForInteger]
+  simp only [h1, h2, if_false, h3]
+  rw [if_pos trivial]
+  refine (C01.sameRun_curEnv _ st).trans ?_
+  have hset : outcome (envSet st.cur name (.int (Int64.ofInt i))) st = .ok (.int (Int64.ofInt i)) := by
+    unfold envSet; rw [outcome_eq_run, hrun]
+  have hs1 : stateAfter (envSet st.cur name (.int (Int64.ofInt i))) st = s1 := by
+    unfold envSet; rw [stateAfter_eq_run, hrun]
+  refine (C01.sameRun_bind_ok _ _ _ _ hset).trans ?_
+  rw [hs1]
+  simp only [Obj.isError, Bool.false_eq_true, if_false]
+  refine (C01.sameRun_bind_ok _ _ _ _ hr).trans ?_
+  cases r <;> first | exact SameRun.refl _ _ | cases hstop
+
+/-- `for i = n {body}` is the counting loop over `[0, n)` with the loop variable `i` -/
+theorem C01.for_named_is_counting (k : Nat) (name : String) (r body : Node) (st : St) (n : Int64)
+    (hr : outcome (evalI k r) st = .ok (.int n)) (hnc : ∀ a b, r ≠ .inf "COLON" a b) :
+    SameRun (evalFor (k + 2) (.inf "ASSIGN" (.ident name) r) body) st
+      (evalForInteger k body 0 n.toInt name .null) (stateAfter (evalI k r) st) := by
+  rw [evalFor, evalForSpecialForms]
+  · have hd : ¬ (("ASSIGN" != "ASSIGN" && "ASSIGN" != "DEFINE") = true) := by decide
+    rw [if_neg hd]
+    simp only [bind_assoc]
+    refine (C01.sameRun_bind_ok _ _ _ _ hr).trans ?_
+    rw [C01.valueOf_nonref _ (fun _ _ h' => by cases h'), pure_bind]
+    simp only [bind_assoc, pure_bind, bind_pure]
+    exact SameRun.refl _ _
+  · intro a b hab; exact hnc a b hab
+
+example : (match outcome (evalI 9 (.forE (.inf "ASSIGN" (.ident "i") (.int 3)) (.ident "i"))) { frames := #[{}] } with
+    | .ok (.int v) => v == 2
+    | _ => false) = true := by decide +kernel
+
 end Grol.E
